@@ -112,7 +112,7 @@ pub trait Property {
     }
     /// seconds without progress on one case before the supervisor declares a hang candidate
     fn hang_secs(&self) -> u64 {
-        30
+        60
     }
     /// upper bounds on re-executions while shrinking (proptest simplification, structural reduction);
     /// lower them when one execution is expensive (compiling a generated program)
